@@ -176,6 +176,30 @@ pub fn run(ctx: &mut Ctx) {
             ctx.nontrivial(t.shape_hash());
         }
         let all: HashSet<D32> = t.all_digests().into_iter().collect();
+        // two digest-equal copies of one sub-envelope, redacted DIFFERENTLY (each shows what the other hides), inside
+        // one envelope; the targets are visible in different copies: every target occurs, so a proof exists and a
+        // root-only verifier accepts it
+        if case % 9 == 2 {
+            ctx.eval();
+            ctx.count("differently_redacted_copies");
+            let x = Envelope::new(format!("x-{}", case)).add_assertion("alpha", case).add_assertion("beta", format!("b-{}", case)).add_assertion("gamma", e.clone());
+            let asr = x.assertions();
+            let (a1, a2) = (asr[0].clone(), asr[1].clone());
+            let copy1 = x.elide_removing_target(&a2);
+            let copy2 = x.elide_removing_target(&a1);
+            let both = Envelope::new("holder").add_assertion("one", copy1).add_assertion("two", copy2);
+            // targets: something inside a1 and something inside a2 (their objects)
+            let ts: HashSet<D32> = [gen::root_digest(&a1.as_object().unwrap()), gen::root_digest(&a2.as_object().unwrap())].into_iter().collect();
+            match trap::guard(|| both.proof_contains_set(&dset(&ts))) {
+                Ok(Some(pr)) => {
+                    if gen::root_digest(&pr) != gen::root_digest(&both) || !both.elide().confirm_contains_set(&dset(&ts), &pr) {
+                        ctx.violation("redacted-copies/proof-rejected", "the proof over two differently redacted copies has another root or is not accepted", jhex(&both));
+                    }
+                }
+                Ok(None) => ctx.violation("redacted-copies/no-proof-although-all-targets-occur", "every target occurs (each in another copy of the same sub-envelope) but no proof was produced", jhex(&both)),
+                Err(pn) => ctx.violation(&format!("proof-panic/{}", pn.signature()), &format!("{:?}", pn), jhex(&both)),
+            }
+        }
         let verifier = e.elide(); // holds only the root digest
         let (_m2, other_env) = universe(&mut rng, crate::gen::GenCfg::small(), case ^ 0x5a5a);
         let mut uniq: Vec<D32> = all.iter().cloned().collect();
@@ -348,6 +372,36 @@ pub fn run(ctx: &mut Ctx) {
                     forged.push(("garbage", Envelope::new(format!("garbage-{}", case))));
                     if let Some(fp) = other_env.proof_contains_set(&dset(&[gen::root_digest(&other_env)].into_iter().collect())) {
                         forged.push(("foreign", fp));
+                    }
+                    // an off-path elided assertion of the genuine proof replaced by a COMPRESSED element that declares
+                    // the same digest but carries unrelated content: asked about something found only inside that
+                    // payload, the answer is no (the reference does not look inside placeholders)
+                    let smuggled = Envelope::new("smuggled").add_assertion("knows", format!("Mallory-{}", case));
+                    let smuggled_digest = gen::root_digest(&smuggled);
+                    if let Some(a) = p.assertions().into_iter().find(|a| a.is_elided() && !targets.contains(&gen::root_digest(a))) {
+                        let ph = Envelope::try_from(bc_components::Compressed::from_uncompressed_data(smuggled.tagged_cbor().to_cbor_data(), Some(bc_components::DigestProvider::digest(&a).into_owned())));
+                        if let Ok(ph) = ph {
+                            if let Ok(fp) = p.replace_assertion(a.clone(), ph) {
+                                ctx.eval();
+                                ctx.count("proofs_with_smuggling_compressed_placeholder");
+                                let mut t2: HashSet<D32> = HashSet::new();
+                                t2.insert(smuggled_digest);
+                                for (hl, h) in [("root-only", verifier.clone()), ("whole-envelope", e.clone())] {
+                                    match trap::guard(|| (h.confirm_contains_set(&dset(&t2), &fp), h.confirm_contains_set(&lib_targets, &fp))) {
+                                        Ok((inside, genuine_targets)) => {
+                                            if inside {
+                                                ctx.violation(&format!("soundness/smuggled-in-compressed-placeholder/{}", hl), "a digest that occurs only inside the payload of a compressed placeholder in the proof was confirmed", jhex(&fp));
+                                            }
+                                            let want = ref_confirm(&t.digest, &targets, &tree_of(&fp));
+                                            if genuine_targets != want {
+                                                ctx.violation(&format!("soundness/compressed-placeholder/{}", hl), &format!("proof with a compressed placeholder off the paths: verifier={} reference={}", genuine_targets, want), jhex(&fp));
+                                            }
+                                        }
+                                        Err(pn) => ctx.violation(&format!("confirm-panic/{}", pn.signature()), &format!("{:?}", pn), jhex(&fp)),
+                                    }
+                                }
+                            }
+                        }
                     }
                     forged.push(("genuine", p.clone()));
                     let partly = e.elide_revealing_set(&dset(&reveal));
